@@ -112,6 +112,18 @@ def check (prop : String) (inp out : List String) : Verdict :=
     | some k, some da, some f => recvCheck prop k da f (joinSp out)
     | _, _, _ => .bad "recv tokens"
   | "volvo" :: rest => volvoCheck rest out
+  | ["acc", kind] =>
+    -- which slots of the shared driver context a handler of the engine driver touches (hook verif_access): the
+    -- sequential histories cover the concurrent tasks when each handler touches the stored command at most once
+    let tr := match out with | ["-"] => [] | [t] => t.splitOn "," | _ => ["?"]
+    let slot := tr.filter fun a => a == "tx_read" || a == "tx_write" || a == "inner"
+    let model : Option (List String) := match kind with
+      | "tick" => some ["tx_read"] | "cmd-engine" => some ["tx_write"] | "cmd-other" => some [] | "rx" => some [] | _ => none
+    { agree := (match model with | some m => slot == m | none => false),
+      model := match model with | some m => ",".intercalate m | none => "?",
+      specFail := failing [
+        ("single_access_to_command_slot", decide (slot.length ≤ 1)),
+        ("only_commands_write_the_command_slot", kind == "cmd-engine" || !(slot.contains "tx_write" || slot.contains "inner"))] }
   | _ => .bad "drv arity"
 
 end Glonax.Driver.DrvDrv
